@@ -28,7 +28,7 @@ func verifHarness_C12_producer() {
 }
 
 func verifHarness_C12_producerSchedules_T() {
-	c := vProdScenario(1)
+	c := vProdScenarioSized(1, false) // x closeAfter: the small sizes in both tiers
 	c.closeAfter = vChoose("closeAfter", c.n+1)
 	r := vRunProducer(c)
 	r.assertC01()
